@@ -191,6 +191,10 @@ fn prepare_one(case: &mut J, sources: &[Src], layout_rng: Option<Rng>) {
     let mut mj = Vec::new();
     for q in &qinfos {
         let ms = oracle::stanza_matches(src, q);
+        if ms.iter().any(|m| m.root.len() != 1) {
+            case["skip"] = json!("tree-sitter binds the root capture of a match to no node or to several");
+            return;
+        }
         let caps: Vec<J> = q.caps.iter().map(|(n, qn)| json!({"name": n, "q": qn})).collect();
         mj.push(json!({"caps": caps, "ms": ms.iter().map(|m| m.to_json()).collect::<Vec<_>>()}));
         per_stanza.push(ms);
